@@ -8,216 +8,290 @@ structure StartsOK (starts : List Nat) (len : Nat) : Prop where
   sorted : starts.Pairwise (· < ·)
   bounded : ∀ x ∈ starts, x ≤ len
 
-/-- **Specification by lines.** Byte position `p` of the text lies in the scope of the tag:
+/-- **Specification by lines.** Position `p` (a byte offset `0 … len`; `len` is the end-of-file
+position, which belongs to the last line) lies in the scope of the tag:
 * `disable-next-line`: `p` is at or after the start of the comment and on a line no later than the
-  line directly after the comment's last line (the tag has no effect when that line does not
-  exist or is the empty last line);
+  line directly after the comment's last line;
 * `disable-line`: `p` is on the comment's (last) line;
-* `disable`: `p` is inside the enclosing block — except for a top-level `disable: codes`, which is
-  file-wide and handled by the file-disabled set instead of a range. -/
+* `disable`: `p` is inside the enclosing block (a block that runs to the end of the document includes
+  the end-of-file position) — except for a top-level `disable: codes`, which is file-wide and handled
+  by the file-disabled set instead of a range. -/
 def inScope (starts : List Nat) (len : Nat) (tag : Tag) (p : Nat) : Prop :=
   match tag.kind with
   | .disableNextLine =>
-    ∃ l lp, getLine starts tag.comment.2 = some l ∧ (lineRange starts len (l + 1)).isSome ∧
-      getLine starts p = some lp ∧ tag.comment.1 ≤ p ∧ lp ≤ l + 1 ∧ p < len
+    ∃ l lp, getLine starts tag.comment.2 = some l ∧ getLine starts p = some lp ∧
+      tag.comment.1 ≤ p ∧ lp ≤ l + 1 ∧ p ≤ len
   | .disableLine =>
-    ∃ l, getLine starts tag.comment.2 = some l ∧ getLine starts p = some l ∧ p < len
+    ∃ l, getLine starts tag.comment.2 = some l ∧ (lineRange starts len l).isSome ∧
+      getLine starts p = some l ∧ p ≤ len
   | .disable =>
     ∃ br top, tag.block = some (br, top) ∧ ¬ (top = true ∧ tag.codes.isSome = true) ∧
-      br.1 ≤ p ∧ p < br.2
+      br.1 ≤ p ∧ (p < br.2 ∨ (br.2 = len ∧ p = len))
   | _ => False
 
 theorem mem_of_getElem?' {l : List Nat} {i x : Nat} (h : l[i]? = some x) : x ∈ l :=
   List.mem_of_getElem? h
+
+/-- `p` lies before the end of the scope closing with line `j` iff `p ≤ len` and `p`'s line is at most `j` -/
+theorem lineScopeEnd_spec (starts : List Nat) (len : Nat) (ok : StartsOK starts len) (j e p lp : Nat)
+    (hj : j < starts.length) (he : lineScopeEnd starts len j = some e) (hlp : getLine starts p = some lp) :
+    p < e ↔ (lp ≤ j ∧ p ≤ len) := by
+  unfold lineScopeEnd at he
+  split at he
+  · rename_i e' he'
+    cases he
+    have := ok.bounded e (mem_of_getElem?' he')
+    rw [getLine_le_iff starts ok.sorted p lp j e hlp he']
+    constructor
+    · intro h
+      have := (getLine_le_iff starts ok.sorted p lp j e hlp he').mpr h
+      exact ⟨h, by omega⟩
+    · intro h; exact h.1
+  · rename_i hnone
+    split at he
+    · cases he
+      have := getLine_lt_length starts p lp hlp
+      constructor
+      · intro h; exact ⟨by omega, by omega⟩
+      · intro h; omega
+    · cases he
 
 theorem nextLine_scope (starts : List Nat) (len : Nat) (ok : StartsOK starts len) (tag : Tag)
     (hk : tag.kind = .disableNextLine) (p : Nat) :
     (∃ rng, tagRange starts len tag = some rng ∧ rng.1 ≤ p ∧ p < rng.2) ↔ inScope starts len tag p := by
   obtain ⟨rest, h0⟩ := ok.head
   obtain ⟨lp, hlp⟩ := getLine_total starts rest h0 p
+  have hlplt := getLine_lt_length starts p lp hlp
   unfold tagRange inScope
   simp only [hk]
-  constructor
-  · intro ⟨rng, h, h1, h2⟩
-    split at h
-    · cases h
-    · rename_i l hl
-      split at h
-      · cases h
-      · rename_i lr hlr
+  cases hl : getLine starts tag.comment.2 with
+  | none => simp
+  | some l =>
+    have hllt := getLine_lt_length starts _ l hl
+    simp only
+    -- the scope line: the line after the comment, or the last line
+    have hm : min (l + 1) (starts.length - 1) < starts.length := by
+      rw [Nat.min_def]; split <;> omega
+    cases he : lineScopeEnd starts len (min (l + 1) (starts.length - 1)) with
+    | none =>
+      exfalso
+      unfold lineScopeEnd at he
+      split at he
+      · cases he
+      · rename_i hnone
+        have : starts.length ≤ min (l + 1) (starts.length - 1) + 1 := by simpa using hnone
+        split at he
+        · cases he
+        · omega
+    | some e =>
+      have hspec := lineScopeEnd_spec starts len ok _ e p lp hm he hlp
+      have hmin : lp ≤ min (l + 1) (starts.length - 1) ↔ lp ≤ l + 1 := by
+        rw [Nat.min_def]; split <;> omega
+      constructor
+      · intro ⟨rng, h, h1, h2⟩
         cases h
-        refine ⟨l, lp, hl, by simp [hlr], hlp, h1, ?_⟩
+        have := hspec.mp h2
+        exact ⟨l, lp, rfl, hlp, h1, hmin.mp this.1, this.2⟩
+      · intro ⟨l', lp', hl', hlp', h1, h2, h3⟩
+        cases hl'
+        rw [hlp] at hlp'; cases hlp'
+        exact ⟨_, rfl, h1, hspec.mpr ⟨hmin.mpr h2, h3⟩⟩
+
+theorem line_scope (starts : List Nat) (len : Nat) (ok : StartsOK starts len) (tag : Tag)
+    (hk : tag.kind = .disableLine) (p : Nat) :
+    (∃ rng, tagRange starts len tag = some rng ∧ rng.1 ≤ p ∧ p < rng.2) ↔ inScope starts len tag p := by
+  obtain ⟨rest, h0⟩ := ok.head
+  obtain ⟨lp, hlp⟩ := getLine_total starts rest h0 p
+  unfold tagRange inScope
+  simp only [hk]
+  cases hl : getLine starts tag.comment.2 with
+  | none => simp
+  | some l =>
+    have hllt := getLine_lt_length starts _ l hl
+    simp only
+    cases hlr : lineRange starts len l with
+    | none =>
+      constructor
+      · intro ⟨rng, h, _⟩; simp at h
+      · intro ⟨l', hl', hsome, _⟩; cases hl'; simp [hlr] at hsome
+    | some lr =>
+      have hs : starts[l]? = some lr.1 := by
         unfold lineRange at hlr
         split at hlr
         · cases hlr
         · rename_i s hs
           split at hlr
-          · rename_i e he
-            cases hlr
-            have := (getLine_le_iff starts ok.sorted p lp (l + 1) e hlp he).mp h2
-            have := ok.bounded e (mem_of_getElem?' he)
-            exact ⟨by omega, by simp at h2; omega⟩
-          · rename_i hnone
-            split at hlr
+          · cases hlr; exact hs
+          · split at hlr
+            · cases hlr; exact hs
             · cases hlr
-              have := getLine_lt_length starts p lp hlp
-              have : starts.length ≤ l + 1 + 1 := by simpa using hnone
-              exact ⟨by omega, h2⟩
-            · cases hlr
-  · intro ⟨l, lp', hl, hsome, hlp', h1, h2, h3⟩
-    rw [hlp] at hlp'; cases hlp'
-    rw [hl]
-    simp only
-    cases hlr : lineRange starts len (l + 1) with
-    | none => simp [hlr] at hsome
-    | some lr =>
-      refine ⟨_, rfl, h1, ?_⟩
-      unfold lineRange at hlr
-      split at hlr
-      · cases hlr
-      · split at hlr
-        · rename_i e he
-          cases hlr
-          exact (getLine_le_iff starts ok.sorted p lp (l + 1) e hlp he).mpr h2
-        · split at hlr
-          · cases hlr; exact h3
-          · cases hlr
-
-theorem line_scope (starts : List Nat) (len : Nat) (ok : StartsOK starts len) (tag : Tag)
-    (hk : tag.kind = .disableLine) (p : Nat) :
-    (∃ rng, tagRange starts len tag = some rng ∧ rng.1 ≤ p ∧ p < rng.2) ↔ inScope starts len tag p := by
-  unfold tagRange inScope
-  simp only [hk]
-  constructor
-  · intro ⟨rng, h, h1, h2⟩
-    split at h
-    · cases h
-    · rename_i l hl
-      refine ⟨l, hl, ?_⟩
-      unfold lineRange at h
-      split at h
-      · cases h
-      · rename_i s hs
-        split at h
-        · rename_i e he
-          cases h
-          have := ok.bounded e (mem_of_getElem?' he)
-          refine ⟨(getLine_some_iff starts ok.sorted p l).mpr ⟨⟨s, hs, h1⟩, ?_⟩, by simp at h2; omega⟩
-          intro s' hs'; rw [he] at hs'; cases hs'; exact h2
+      cases he : lineScopeEnd starts len l with
+      | none =>
+        exfalso
+        unfold lineScopeEnd at he
+        split at he
+        · cases he
         · rename_i hnone
-          split at h
-          · cases h
-            refine ⟨(getLine_some_iff starts ok.sorted p l).mpr ⟨⟨s, hs, h1⟩, ?_⟩, h2⟩
-            intro s' hs'; rw [hnone] at hs'; cases hs'
-          · cases h
-  · intro ⟨l, hl, hp, h3⟩
-    rw [hl]
-    simp only
-    obtain ⟨⟨s, hs, h1⟩, h2⟩ := (getLine_some_iff starts ok.sorted p l).mp hp
-    unfold lineRange
-    rw [hs]
-    simp only
-    cases he : starts[l + 1]? with
-    | some e => exact ⟨_, rfl, h1, h2 e he⟩
-    | none =>
-      have : s < len := by omega
-      simp only [this, if_true]
-      exact ⟨_, rfl, h1, h3⟩
+          have : starts.length ≤ l + 1 := by simpa using hnone
+          split at he
+          · cases he
+          · omega
+      | some e =>
+        have hspec := lineScopeEnd_spec starts len ok l e p lp hllt he hlp
+        constructor
+        · intro ⟨rng, h, h1, h2⟩
+          cases h
+          obtain ⟨h3, h4⟩ := hspec.mp h2
+          -- lp ≤ l and starts[l] ≤ p give lp = l
+          obtain ⟨⟨s', hs', hsp⟩, _⟩ := (getLine_some_iff starts ok.sorted p lp).mp hlp
+          have hge : l ≤ lp := by
+            apply Classical.byContradiction; intro hc
+            have hlp1 : lp + 1 < starts.length := by omega
+            have hnext := ((getLine_some_iff starts ok.sorted p lp).mp hlp).2 _ (List.getElem?_eq_getElem hlp1)
+            have := starts_mono starts ok.sorted (lp + 1) l _ lr.1 (by omega) (List.getElem?_eq_getElem hlp1) hs
+            simp only at h1; omega
+          have : lp = l := by omega
+          subst this
+          exact ⟨lp, rfl, by simp [hlr], hlp, h4⟩
+        · intro ⟨l', hl', _, hp, h3⟩
+          cases hl'
+          rw [hlp] at hp; cases hp
+          obtain ⟨⟨s', hs', hsp⟩, _⟩ := (getLine_some_iff starts ok.sorted p lp).mp hlp
+          rw [hs] at hs'; cases hs'
+          exact ⟨_, rfl, hsp, hspec.mpr ⟨Nat.le_refl _, h3⟩⟩
 
-theorem block_scope (starts : List Nat) (len : Nat) (tag : Tag) (hk : tag.kind = .disable) (p : Nat) :
+theorem block_scope (starts : List Nat) (len : Nat) (tag : Tag) (hk : tag.kind = .disable) (p : Nat)
+    (hb : ∀ br top, tag.block = some (br, top) → br.2 ≤ len) :
     (∃ rng, tagRange starts len tag = some rng ∧ rng.1 ≤ p ∧ p < rng.2) ↔ inScope starts len tag p := by
   unfold tagRange inScope
   simp only [hk]
-  cases hb : tag.block with
+  cases hbl : tag.block with
   | none => simp
   | some bt =>
     obtain ⟨br, top⟩ := bt
+    have hle := hb br top hbl
     by_cases hc : (top && tag.codes.isSome) = true
     · have hc' : top = true ∧ tag.codes.isSome = true := by simpa using hc
-      simp [hc, hc'.1, hc'.2]
+      simp [hc'.1, hc'.2]
     · have hc' : ¬ (top = true ∧ tag.codes.isSome = true) := by simpa using hc
-      simp only [hc, if_false]
+      simp only [hc]
       constructor
       · intro ⟨rng, h, h1, h2⟩
         cases h
-        exact ⟨br, top, rfl, hc', h1, h2⟩
+        refine ⟨br, top, rfl, hc', ?_, ?_⟩
+        · split at h1 <;> exact h1
+        · split at h2
+          · rename_i heq; simp only at h2; omega
+          · exact Or.inl h2
       · intro ⟨br', top', hb', _, h1, h2⟩
         cases hb'
-        exact ⟨_, rfl, h1, h2⟩
+        refine ⟨_, rfl, ?_, ?_⟩
+        · split <;> exact h1
+        · split
+          · simp only; omega
+          · rename_i hne; rcases h2 with h2 | ⟨h2, _⟩
+            · exact h2
+            · exact absurd h2 hne
 
 /-- the valid range of a tag contains exactly the positions that are in its scope by lines -/
-theorem tagRange_inScope (starts : List Nat) (len : Nat) (ok : StartsOK starts len) (tag : Tag) (p : Nat) :
+theorem tagRange_inScope (starts : List Nat) (len : Nat) (ok : StartsOK starts len) (tag : Tag) (p : Nat)
+    (hb : ∀ br top, tag.block = some (br, top) → br.2 ≤ len) :
     (∃ rng, tagRange starts len tag = some rng ∧ rng.1 ≤ p ∧ p < rng.2) ↔ inScope starts len tag p := by
   cases hk : tag.kind with
   | disableNextLine => exact nextLine_scope starts len ok tag hk p
   | disableLine => exact line_scope starts len ok tag hk p
-  | disable => exact block_scope starts len tag hk p
+  | disable => exact block_scope starts len tag hk p hb
   | enable => simp [tagRange, inScope, hk]
   | other => simp [tagRange, inScope, hk]
 
 /-- what the syntax tree guarantees about a tag: the comment is non-empty, inside the text and inside
-its enclosing block (checked on every generated input by the harness) -/
+its enclosing block, which is inside the text (checked on every generated input by the harness) -/
 def TagOK (len : Nat) (tag : Tag) : Prop :=
   tag.comment.1 < tag.comment.2 ∧ tag.comment.2 ≤ len ∧
-  ∀ br top, tag.block = some (br, top) → br.1 ≤ tag.comment.1 ∧ tag.comment.2 ≤ br.2
+  ∀ br top, tag.block = some (br, top) → br.1 ≤ tag.comment.1 ∧ tag.comment.2 ≤ br.2 ∧ br.2 ≤ len
+
+theorem lineScopeEnd_last (starts : List Nat) (len l : Nat) (hl : l < starts.length)
+    (hnone : starts[l + 1]? = none) : lineScopeEnd starts len l = some (len + 1) := by
+  have : starts.length ≤ l + 1 := by simpa using hnone
+  have hl1 : l + 1 = starts.length := by omega
+  simp [lineScopeEnd, hnone, hl1]
 
 theorem tagRange_nonempty (starts : List Nat) (len : Nat) (ok : StartsOK starts len) (tag : Tag)
     (htag : TagOK len tag) (rng : Range) (h : tagRange starts len tag = some rng) : rng.1 < rng.2 := by
   obtain ⟨hc1, hc2, hb⟩ := htag
   unfold tagRange at h
-  split at h
-  · -- next line
-    split at h
-    · cases h
-    · rename_i l hl
-      split at h
-      · cases h
-      · rename_i lr hlr
-        cases h
-        obtain ⟨_, h3⟩ := (getLine_some_iff starts ok.sorted _ l).mp hl
-        unfold lineRange at hlr
-        split at hlr
-        · cases hlr
-        · rename_i s hs
-          have := h3 s hs
-          split at hlr
-          · rename_i e he
-            cases hlr
-            have := starts_mono starts ok.sorted (l + 1) (l + 1 + 1) s e (by omega) hs he
-            simp only; omega
-          · split at hlr
-            · cases hlr; simp only; omega
-            · cases hlr
-  · -- line
-    split at h
-    · cases h
-    · rename_i l hl
+  cases hk : tag.kind with
+  | disableNextLine =>
+    simp only [hk] at h
+    cases hl : getLine starts tag.comment.2 with
+    | none => simp [hl] at h
+    | some l =>
+      have hllt := getLine_lt_length starts _ l hl
+      obtain ⟨_, h3⟩ := (getLine_some_iff starts ok.sorted _ l).mp hl
+      simp only [hl] at h
+      cases hs1 : starts[l + 1]? with
+      | some s1 =>
+        have hlen := (List.getElem?_eq_some_iff.mp hs1).1
+        have hm : min (l + 1) (starts.length - 1) = l + 1 := by rw [Nat.min_def]; split <;> omega
+        rw [hm] at h
+        have hc := h3 s1 hs1
+        cases hs2 : starts[l + 1 + 1]? with
+        | some s2 =>
+          have := starts_mono starts ok.sorted (l + 1) (l + 1 + 1) s1 s2 (by omega) hs1 hs2
+          simp [lineScopeEnd, hs2] at h
+          subst h; simp only; omega
+        | none =>
+          rw [lineScopeEnd_last starts len (l + 1) hlen hs2] at h
+          simp at h; subst h; simp only; omega
+      | none =>
+        have : starts.length ≤ l + 1 := by simpa using hs1
+        have hm : min (l + 1) (starts.length - 1) = l := by rw [Nat.min_def]; split <;> omega
+        rw [hm, lineScopeEnd_last starts len l hllt hs1] at h
+        simp at h; subst h; simp only; omega
+  | disableLine =>
+    simp only [hk] at h
+    cases hl : getLine starts tag.comment.2 with
+    | none => simp [hl] at h
+    | some l =>
+      have hllt := getLine_lt_length starts _ l hl
       obtain ⟨⟨s0, hs0, h2⟩, h3⟩ := (getLine_some_iff starts ok.sorted _ l).mp hl
-      unfold lineRange at h
-      split at h
-      · cases h
-      · rename_i s hs
-        rw [hs0] at hs; cases hs
-        split at h
-        · rename_i e he
-          cases h
-          have := h3 e he
-          simp only; omega
-        · split at h
-          · cases h; simp only; omega
-          · cases h
-  · -- block
+      simp only [hl] at h
+      cases hlr : lineRange starts len l with
+      | none => simp [hlr] at h
+      | some lr =>
+        have hlr1 : lr.1 = s0 := by
+          unfold lineRange at hlr
+          rw [hs0] at hlr
+          simp only at hlr
+          split at hlr
+          · cases hlr; rfl
+          · split at hlr
+            · cases hlr; rfl
+            · cases hlr
+        cases hs1 : starts[l + 1]? with
+        | some s1 =>
+          have hc := h3 s1 hs1
+          simp [hlr, lineScopeEnd, hs1] at h
+          subst h; simp only; omega
+        | none =>
+          rw [hlr, lineScopeEnd_last starts len l hllt hs1] at h
+          simp at h; subst h; simp only; omega
+  | disable =>
+    simp only [hk] at h
     cases hbl : tag.block with
     | none => simp [hbl] at h
     | some bt =>
       obtain ⟨br, top⟩ := bt
+      have := hb br top hbl
       simp only [hbl] at h
       split at h
       · cases h
-      · have := hb br top hbl
-        cases h
-        omega
-  · cases h
+      · cases h
+        split
+        · simp only; omega
+        · omega
+  | enable => simp [hk] at h
+  | other => simp [hk] at h
 
 /-! ### file-level sets -/
 
